@@ -87,6 +87,42 @@ Theorem guarded_answer_is_404 :
     f_body (layer_b true true true cors fs errpage tmpl r ov true) = host_404_body errpage.
 Proof. exact guarded_answer_is_404_lemma. Qed.
 
+(** "the answer is the host's 404", above the cache, for EVERY history (requests of any clients, clears, waits, from
+    the empty cache; cache on or off; any negotiation, vary rules, rewriting Prime extensions; overrides are internal
+    URIs ["/./..."]; no error page is a [!> tmpl] template; the status filter keeps 400 and 416 out of the cache as
+    the default one does): the reply to a request that has to be refused — it passes sanitize, is not overridden,
+    its (rewritten) path names a readable file that is hidden / private, or marked [allow-ips] without listing the
+    client's address — is the host's 404 (status 404; body sent and identity body are the 404 page as served for a path
+    that does not exist), or 304 Not Modified for a conditional request when that 404 is in the cache, or 406 when the
+    client accepts no representation.  In particular a cached answer of ANOTHER client is never used. *)
+Theorem refused_reply_is_404 :
+  forall (cors : bool) (fs : bytes -> option bytes) (errpage : N -> bytes) (tmpl : list bytes -> bytes -> bytes)
+         (sfilter : N -> bool) (prime : request -> request) (override : request -> option (bytes * option bytes)),
+    (forall s, has_name N_TMPL (entries_of (errpage s)) = false) ->
+    sfilter 400 = true /\ sfilter 416 = true ->
+    (forall r0 p q, override r0 = Some (p, q) -> starts_with INTERNAL p = true) ->
+  forall cache_on ims_on fix_clear fix_svary fix_qmkey fix_ims parse_ims refuses vary_tuple vary_header clear_alias now ops,
+    Forall2 (refused_ok fs errpage prime override) ops
+      (run_g true true true cors fs errpage tmpl cache_on ims_on true fix_clear fix_svary fix_qmkey fix_ims
+             sfilter parse_ims prime override refuses vary_tuple vary_header clear_alias [] now ops).
+Proof. exact refused_reply_is_404_lemma. Qed.
+
+(** ... and no history tells whether a hidden file exists: on a host whose error pages carry no [!> ] line, removing
+    files that are hidden / private and whose line carries nothing but [hide] (and names that are not mounted)
+    changes NO observation of any history from any cache content — status, headers, bodies, last-modified,
+    cache hit or not — for every client, spelling, method, Range, Accept-Encoding outcome and configuration. *)
+Theorem hidden_file_indistinguishable_from_absent :
+  forall (cors : bool) (fs fs' : bytes -> option bytes) (errpage : N -> bytes) (tmpl : list bytes -> bytes -> bytes),
+    (forall s, line_of (errpage s) = None) ->
+    (forall x, fs' x = fs x \/ (fs' x = None /\ exists c, fs x = Some c /\ plain_hidden x c)) ->
+  forall cache_on ims_on fix_ovkey fix_clear fix_svary fix_qmkey fix_ims sfilter parse_ims prime override refuses
+         vary_tuple vary_header clear_alias c now ops,
+    run_g true true true cors fs errpage tmpl cache_on ims_on fix_ovkey fix_clear fix_svary fix_qmkey fix_ims
+          sfilter parse_ims prime override refuses vary_tuple vary_header clear_alias c now ops =
+    run_g true true true cors fs' errpage tmpl cache_on ims_on fix_ovkey fix_clear fix_svary fix_qmkey fix_ims
+          sfilter parse_ims prime override refuses vary_tuple vary_header clear_alias c now ops.
+Proof. exact hidden_file_indistinguishable_lemma. Qed.
+
 (** The statement is false of the code before the repairs (models selected by the switches):
     (a) extension lookup on the raw path: [GET /secret%2Eprivate], cache on or off; *)
 Theorem private_spelling_v0_refuted :
@@ -98,6 +134,27 @@ Theorem cache_directive_v0_refuted :
   violates w_fs W_SECRET [w_get (B "/ac.txt") 1; w_get (B "/ac.txt") 2]
                          (w_run true false true [w_get (B "/ac.txt") 1; w_get (B "/ac.txt") 2]).
 Proof. exact cache_directive_v0_refuted_lemma. Qed.
+(** (c) the 404 that replaced a guarded file kept the [!> ] line of [errors/404.html]: the answers for a private file
+    and for an [allow-ips] file (other address) differ from the answer for a path that does not exist; repaired: equal *)
+Theorem error_page_line_v0_refuted :
+  exists b1 b2 b3, w_bodies (w_run_err w_err_line true true false true w_twins) = [(404, b1); (404, b2); (404, b3)] /\
+                   b1 <> b2 /\ b3 <> b2.
+Proof. exact error_page_line_v0_refuted_lemma. Qed.
+(** KNOWN classes (not repaired; the check reports them as known findings):
+    (d) tmpl-names-guarded-file: the argument of [!> tmpl] is joined to [<host>/templates/] unchecked; a PUBLIC page
+        that names [../public/s.private] is served with a block of the private file — on the concrete template engine
+        (Model/Templates.v over the fixture tree) the main statement fails; [guarded_content_confined] therefore
+        assumes that templates introduce no guarded content; *)
+Theorem tmpl_names_guarded_file_refuted :
+  violates (fs_of_tree (tree_of w_tmpl_files)) W_SECRET [w_get (B "/t.html") 2]
+           (run_gcfg true true true w_tmpl_cfg [w_get (B "/t.html") 2]).
+Proof. exact tmpl_names_guarded_file_refuted_lemma. Qed.
+(** (e) allow-ips-404-template-unrendered: when [errors/404.html] is a [!> tmpl] template, [hide] renders it, [allow-ips]
+        does not: a file with [!> hide &> allow-ips ...] answers an unlisted client with the unrendered page, which is
+        not the answer for a path that does not exist ([refused_reply_is_404] assumes no error page is a template) *)
+Theorem allow_404_template_refuted :
+  exists b1 b2, w_bodies (w_run_gen w_err_tmpl w_render true true true true w_both_twins) = [(404, b1); (404, b2); (404, b2)] /\ b1 <> b2.
+Proof. exact allow_404_template_refuted_lemma. Qed.
 Theorem violates_contradicts_confined : forall fs secret ops obs,
   violates fs secret ops obs -> ~ Forall2 (reply_ok fs secret (fun r => r)) ops obs.
 Proof. exact violates_not_ok. Qed.
@@ -123,3 +180,7 @@ Example spelling_example :
   pct_encode [None; Some (false, false); Some (false, false)] (B "/s.private") = B "/%73%2eprivate" /\
   mask_ok [None; None; Some (true, true)] (B "/s.private") = true.
 Proof. exact spelling_example_lemma. Qed.
+Example error_page_line_repaired :
+  w_bodies (w_run_err w_err_line true true true true w_twins) =
+    [(404, host_404_body w_err_line); (404, host_404_body w_err_line); (404, host_404_body w_err_line)].
+Proof. exact error_page_line_repaired_lemma. Qed.
